@@ -150,6 +150,7 @@ def cut_scenario(res, pre: bytes, stream: bytes, off: int, state: str, wait_quie
             res.violate("c09-buffer", "receive buffer does not hold exactly the partial frame after the cut", case, rest, ep.buf())
     # ---- the peer closes here
     if not ep.close():
+        res.bump("close_hangs", "n")
         res.violate("c09-close-hang", f"close sequence (on_disconnecting, on_disconnected) did not finish within {CLOSE_BOUND:.0f} s", case,
                     "finished", {"state": str(ep.state()), "buffer": ep.buf(), "send_queue": ep.p._send_queue.qsize()})
         return case, None
@@ -214,7 +215,7 @@ def inmemory_part(res, rng, drv, big):
     n = 0
     for state, (pre, stream) in streams.items():
         for off in range(len(stream) + 1):
-            if sum(1 for v in res.violations if v["class"] == "c09-close-hang") >= 6:
+            if res.hist.get("close_hangs", {}).get("n", 0) >= 6:
                 res.notes.append("6 close sequences hung: the rest of the exhaustive sweep is skipped (each costs the 3 s bound)")
                 break
             case, snaps = cut_scenario(res, pre, stream, off, state, True)
@@ -244,7 +245,7 @@ def inmemory_part(res, rng, drv, big):
     offs = {st: (list(range(len(s[1]) + 1)) if big else sorted({rng.range(0, len(s[1])) for _ in range(8)} | {0, 7, 14, len(s[1])})) for st, s in streams.items()}
     for state, (pre, stream) in streams.items():
         for off in offs[state]:
-            if sum(1 for v in res.violations if v["class"] == "c09-close-hang") >= 6:
+            if res.hist.get("close_hangs", {}).get("n", 0) >= 6:
                 break
             cut_scenario(res, pre, stream, off, state, False)
             res.count(("cut-racing", state, off))
@@ -260,7 +261,7 @@ def inmemory_part(res, rng, drv, big):
         stream = b"".join(frames)
         off = rng.range(0, len(stream))
         pre = SELECT_REQ(1) if rng.chance(1, 2) else b""
-        if sum(1 for v in res.violations if v["class"] == "c09-close-hang") >= 6:
+        if res.hist.get("close_hangs", {}).get("n", 0) >= 6:
             break
         case, snaps = cut_scenario(res, pre, stream, off, "random", True)
         res.count(("cut-random", stream, off, pre), sample={"op": "random stream cut", "frames": len(frames), "offset": off} if i == 0 else None)
